@@ -9,13 +9,13 @@ COQ_PRELUDE = ''
 PER_FILE = 300
 CASE_TIMEOUT = 20
 RULE = ('kinds: loop = loop(list,tuple,dict)(f) on random nestings of lists / tuples / dict, OrderedDict, Dict, dictattr to depth 4 (empty containers included; dict keys are strings, ints, floats, tuples, None, '
-        'and in the lifted argument also mixes of those families; leaves are ints, None, strings of length 0-4, floats, +-inf; a few containers of 100-160 elements; also loop(list), loop(tuple), loop(dict), '
+        'and in the lifted argument also mixes of those families; a shared stream places ONE sub-container object at 2-4 positions of a list / tuple / dict ([row] * n) with companions that differ per position; leaves are ints, None, strings of length 0-4, floats, +-inf; a few containers of 100-160 elements; also loop(list), loop(tuple), loop(dict), '
         'loop(list,tuple), ... where containers of the other types are leaves) '
         'with 0-3 companions that are scalars, same-shape, same-shape-at-the-top, different-shape or "deep" (a sub-container of the matching length / keys), passed '
         'positionally, by keyword or mixed (also the lifted argument itself by keyword), f recording exactly what it receives (lambda a,*args,**kw) or binding named '
         'parameters (lambda a,b=None,c=None); lib = lower upper strip proper capitalize replace split f12 as_float on nested structures of strings / numbers / None; '
         'zip = zipper over scalars (strings included), lists, tuples, ranges and zip objects of lengths 0-4 (a few of 100-140), plus lens on the same values; as = as_list / as_tuple (none=True included, ranges) applied once and twice; wait = waiter on a nested structure holding up to 5 '
-        '(thorough: 6) futures / coroutines / tasks under a real asyncio event loop, the futures resolved by a driver in EVERY permutation, (also all results set within one loop iteration, and one future / task placed twice; plus a chain stream: 2-5 lazy coroutines placed in dicts, lists, dicts of lists, lists of dicts and deeper mixes whose completion order is forced by events - awaitable k can only finish after awaitable k-1 - under every permutation, a waiter that does not return within 0.5 s being the outcome Timeout = violation; every quick run has one structure with 6 awaitables = 720 orders), recording the final value and '
+        '(thorough: 6) futures / coroutines / tasks under a real asyncio event loop, the futures resolved by a driver in EVERY permutation, (also all results set within one loop iteration, and one future / task placed twice; plus a chain stream: 2-5 lazy coroutines placed in dicts, lists, dicts of lists, lists of dicts and deeper mixes whose completion order is forced by events - awaitable k can only finish after awaitable k-1 - under every permutation, a waiter that does not return within 0.5 s being the outcome Timeout = violation; in both waiter streams a third of the cases carry exception OBJECTS (a ValueError, a KeyError, a custom subclass, a bare Exception) as awaitable RESULTS (bare or inside a container) and as plain leaves - values, not errors - and a tenth have one awaitable that genuinely raises (contrast: waiter must raise exactly that exception under every order); every quick run has one structure with 6 awaitables = 720 orders), recording the final value and '
         'whether waiter had returned before each completion. Each observation is compared in Coq with M_loop (wrapped / zipper / as_list / as_tuple / collect). The oracle '
         're-derives the expected result from the property text: a plain recursive map where a companion of the same length (dicts: same keys) is indexed, anything else '
         'is passed whole (no exemption: a different-shape companion holding a sub-container of the matching length / keys is searched recursively by _item_by_i / _item_by_key instead of being broadcast - '
@@ -67,9 +67,18 @@ def coq_wval(s):
     cls, items = s['D']
     return '(WDict (%d)%%Z [%s])' % (cls, '; '.join('((%d)%%Z, %s)' % (k, coq_wval(v)) for k, v in items))
 
+def raiser(case):
+    """index of the awaitable that RAISES its exception instead of returning it (at most one per case), else None"""
+    ks = case.get('kinds', []) if case.get('kind') == 'wait' else []
+    r = [i for i, k in enumerate(ks) if k.endswith('raise')]
+    return r[0] if r else None
+def exc_name(leaf_id):
+    t = EXC[leaf_id][0].__name__
+    return t if t in ('ValueError', 'KeyError', 'TypeError', 'IndexError', 'AttributeError') else 'Other:' + t
+
 def coq_runner(case):
     return {'loop': 'run_loop' if case.get('mode') != 'named' else 'run_loop_named', 'lib': 'run_loop_id', 'zip': 'run_zipper',
-            'as': 'run_as', 'wait': 'run_waiter_chain' if case.get('chain') else 'run_waiter'}[case['kind']]
+            'as': 'run_as', 'wait': 'run_waiter_raise' if raiser(case) is not None else 'run_waiter_chain' if case.get('chain') else 'run_waiter'}[case['kind']]
 
 def coq_case(case):
     k = case['kind']
@@ -85,6 +94,8 @@ def coq_case(case):
     if k == 'wait':
         m = len(case['results'])
         scheds = '; '.join('[%s]' % '; '.join('%d%%nat' % i for i in p) for p in itertools.permutations(range(m)))
+        if raiser(case) is not None:
+            return '([%s], "%s")' % (scheds, exc_name(case['results'][raiser(case)]))
         return '(%s, [%s], [%s])' % (coq_wval(case['w']), '; '.join(coq_val(x) for x in case['results']), scheds)
     raise ValueError(k)
 
@@ -125,22 +136,42 @@ def key_class(k):
 SPECIAL = {-2: 'ab', -3: 'abc', -4: '', -5: 1.5, -6: float('inf'), -7: 'xy', -8: -0.5, -9: 'abcd', -10: float('-inf')}
 SPECIAL_INV = {v: k for k, v in SPECIAL.items()}
 COLLAPSED = 100000
+class CustomError(Exception):
+    pass
+# exception OBJECTS as ordinary values (returned, never raised): ids -11 .. -14; a fresh instance per build, compared by (type, args)
+EXC = {-11: (ValueError, ('x',)), -12: (KeyError, ('k',)), -13: (CustomError, ('c', 3)), -14: (Exception, ())}
+EXC_INV = {(t.__name__, a): k for k, (t, a) in EXC.items()}
 def plain_leaf(k):
+    if k in EXC:
+        return EXC[k][0](*EXC[k][1])
     return None if k == -1 else SPECIAL[k] if k < -1 else k
 
-def build(s, leaf=plain_leaf):
+def build(s, leaf=plain_leaf, share=None, path=(), memo=None):
+    """share: {path: group}: the sub-containers at the paths of one group are built ONCE and the same object is placed at each of them
+    (a row repeated by reference, [row] * n); paths are tuples of list positions / dict key ids"""
     if isinstance(s, int):
         return leaf(s)
+    if share and path in share:
+        memo = {} if memo is None else memo
+        g = share[path]
+        if g in memo:
+            return memo[g]
     if 'R' in s:
         return range(s['R'])
     if 'Z' in s:
         return zip(*[[build(x, leaf) for x in side] for side in s['Z']])
+    if share and memo is None:
+        memo = {}
     if 'L' in s:
-        return [build(x, leaf) for x in s['L']]
-    if 'T' in s:
-        return tuple(build(x, leaf) for x in s['T'])
-    cls, items = s['D']
-    return CLS[cls]({pykey(k): build(v, leaf) for k, v in items})
+        r = [build(x, leaf, share, path + (i,), memo) for i, x in enumerate(s['L'])]
+    elif 'T' in s:
+        r = tuple(build(x, leaf, share, path + (i,), memo) for i, x in enumerate(s['T']))
+    else:
+        cls, items = s['D']
+        r = CLS[cls]({pykey(k): build(v, leaf, share, path + (k,), memo) for k, v in items})
+    if share and path in share:
+        memo[share[path]] = r
+    return r
 
 def render(x, ident=None):
     """python value -> the nested-list observation X_loop.J_of produces"""
@@ -148,6 +179,8 @@ def render(x, ident=None):
         return ident[id(x)]
     if x is None:
         return -1
+    if isinstance(x, BaseException):
+        return EXC_INV[(type(x).__name__, x.args)]
     if isinstance(x, bool):
         raise TypeError('bool leaf')
     if isinstance(x, int):
@@ -197,6 +230,8 @@ def same(a, b):
         return list(a.keys()) == list(b.keys()) and all(same(dict.__getitem__(a, k), dict.__getitem__(b, k)) for k in a)
     if isinstance(a, float):
         return a == b or (a != a and b != b)
+    if isinstance(a, BaseException):
+        return a.args == b.args
     return a == b
 
 def err(e):
@@ -207,7 +242,13 @@ def impl_loop(case):
     tys = case.get('types', 'LTD')
     table = []; carg = collapse(case['arg'], tys, table)
     objs = [build(t) for t in table]; ident = {id(o): COLLAPSED + i for i, o in enumerate(objs)}
-    arg = build(carg, lambda k: objs[k - COLLAPSED] if k >= COLLAPSED else plain_leaf(k)); pos = [build(x) for x in case['pos']]
+    share = {tuple(p): g for g, paths in enumerate(case.get('share', [])) for p in paths}
+    arg = build(carg, lambda k: objs[k - COLLAPSED] if k >= COLLAPSED else plain_leaf(k), share or None); pos = [build(x) for x in case['pos']]
+    if share:       # the generator's promise: one object at every path of a group
+        def at(x, p):
+            for k in p: x = x[k] if isinstance(x, (list, tuple)) else dict.__getitem__(x, pykey(k))
+            return x
+        assert all(at(arg, ps[0]) is at(arg, q) for ps in case['share'] for q in ps), 'sharing not realised'
     named = case.get('mode') == 'named'
     names = (lambda n: 'bc'[n]) if named else (lambda n: 'p%d' % n)
     kw = {names(n): build(v) for n, v in case['kw']}
@@ -334,7 +375,7 @@ def impl_wait_chain(case):
     """completion orders forced by events, not by a driver: awaitable order[k] can only finish after order[k-1] has finished, and a
     coroutine does nothing before it is awaited - so waiter must start every awaitable of a list AND of a dict concurrently"""
     m = len(case['results']); results = [build(x) for x in case['results']]; kinds = case['kinds']
-    exp_struct = subst_py(case['w'], results)
+    exp_struct = subst_py(case['w'], results); rz = raiser(case)
     out = []; viol = None
     async def one(order):
         events = {i: asyncio.Event() for i in range(m)}; finished = []
@@ -343,9 +384,11 @@ def impl_wait_chain(case):
             if pos > 0:
                 await events[order[pos - 1]].wait()
             finished.append(i); events[i].set()
+            if kinds[i] == 'chainraise':
+                raise results[i]
             return results[i]
         def aw(i):
-            return job(i) if kinds[i] == 'chain' else asyncio.ensure_future(job(i))     # lazy coroutine | already scheduled task
+            return asyncio.ensure_future(job(i)) if kinds[i] == 'chaintask' else job(i)     # already scheduled task | lazy coroutine
         struct = build_w(case['w'], aw)
         try:
             return await asyncio.wait_for(waiter(struct), WAIT_TIMEOUT), finished
@@ -361,6 +404,10 @@ def impl_wait_chain(case):
                 if viol is None or 'never returned' not in viol:
                     viol = 'waiter(%s) never returned (Timeout after %ss) when the awaitables can only complete in the order %s: only %s finished' % (
                         json.dumps(case['w']), WAIT_TIMEOUT, list(order), finished)
+            elif rz is not None:
+                o = ['ERR', 'returned']
+                if viol is None:
+                    viol = 'awaitable %d raises %r but waiter returned %r (order %s)' % (rz, results[rz], res, list(order))
             else:
                 o = [render(res), list(finished)]
                 if viol is None and not same(res, exp_struct):
@@ -369,8 +416,9 @@ def impl_wait_chain(case):
                     viol = 'awaitables finished in order %s, forced order %s' % (finished, list(order))
         except Exception as e:
             o = ['ERR', err(e)]
-            if viol is None:
-                viol = 'waiter raised %s under completion order %s: %s' % (type(e).__name__, list(order), str(e)[:100])
+            if viol is None and not (rz is not None and type(e) is type(results[rz]) and e.args == results[rz].args):
+                viol = 'waiter raised %s under completion order %s: %s%s' % (type(e).__name__, list(order), str(e)[:100],
+                        ' (an exception OBJECT that is a result / a leaf is a value, not an error)' if rz is None else '')
         out.append(o)
     return {'status': 'Timeout' if viol and 'never returned' in viol else 'ok', 'obs': out, 'viol': viol}
 
@@ -378,7 +426,7 @@ def impl_wait(case):
     if case.get('chain'):
         return impl_wait_chain(case)
     m = len(case['results']); results = [build(x) for x in case['results']]; kinds = case['kinds']
-    cache = {}
+    cache = {}; rz = raiser(case)
     exp_struct = subst_py(case['w'], results)
     out = []; viol = None
     async def one(order):
@@ -388,7 +436,7 @@ def impl_wait(case):
             return await f
         made = {}
         def aw(i):
-            if kinds[i] == 'coro': return co(futs[i])
+            if kinds[i] in ('coro', 'raise'): return co(futs[i])
             if i not in made:          # a future / task may sit at several places of the structure
                 made[i] = futs[i] if kinds[i] == 'fut' else asyncio.ensure_future(co(futs[i]))
             return made[i]
@@ -399,27 +447,31 @@ def impl_wait(case):
             if not case.get('burst'):      # burst: all results are set within one iteration of the event loop
                 for _ in range(4): await asyncio.sleep(0)
             flags.append(task.done())
-            futs[i].set_result(results[i])
+            if i == rz: futs[i].set_exception(results[i])
+            else: futs[i].set_result(results[i])
         res = await asyncio.wait_for(task, 5)
         return res, flags
     for order in itertools.permutations(range(m)):
         try:
             res, flags = asyncio.run(one(order))
-            o = [render(res), [bool(f) for f in flags]]
+            o = [render(res), [bool(f) for f in flags]] if rz is None else ['ERR', 'returned']
+            if viol is None and rz is not None:
+                viol = 'awaitable %d raises %r but waiter returned %r (order %s)' % (rz, results[rz], res, list(order))
             if viol is None and not same(res, exp_struct):
                 viol = 'waiter(%s) with completion order %s returned %r, expected %r' % (json.dumps(case['w']), list(order), res, exp_struct)
             if viol is None and any(flags):
                 viol = 'waiter returned before all awaitables completed (order %s, done flags %s)' % (list(order), flags)
         except Exception as e:
             o = ['ERR', err(e)]
-            if viol is None:
-                viol = 'waiter raised %s under completion order %s: %s' % (type(e).__name__, list(order), str(e)[:100])
+            if viol is None and not (rz is not None and type(e) is type(results[rz]) and e.args == results[rz].args):
+                viol = 'waiter raised %s under completion order %s: %s%s' % (type(e).__name__, list(order), str(e)[:100],
+                        ' (an exception OBJECT that is a result / a leaf is a value, not an error)' if rz is None else '')
         out.append(o)
     return {'status': 'ok', 'obs': out, 'viol': viol}
 
 def build_w(s, aw):
     if isinstance(s, int):
-        return None if s == -1 else s
+        return plain_leaf(s)
     if 'A' in s:
         return aw(s['A'])
     if 'L' in s:
@@ -468,9 +520,12 @@ def shape(case):
         return 'zip:%d:%s%s' % (len(case['vals']), kinds, ':>100' if big else '')
     if k == 'as':
         return ('as_tuple' if case['tuple'] else 'as_list') + (':none' if case.get('none') else '') + (':range' if isinstance(case['v'], dict) and 'R' in case['v'] else '')
+    def has_exc(x):
+        return (isinstance(x, int) and x in EXC) or (isinstance(x, dict) and any(has_exc(y) for y in (x.get('L') or x.get('T') or [v for _, v in x.get('D', [0, []])[1]])))
+    ex = (':raises' if raiser(case) is not None else '') + (':excresult' if any(has_exc(r) for r in case['results']) else '') + (':excleaf' if has_exc(case['w']) else '')
     if case.get('chain'):
-        return 'wait:chain:%s:%d' % (case.get('shape', '?'), len(case['results']))
-    return 'wait:%d%s' % (len(case['results']), ':burst' if case.get('burst') else '')
+        return 'wait:chain:%s:%d%s' % (case.get('shape', '?'), len(case['results']), ex)
+    return 'wait:%d%s%s' % (len(case['results']), ':burst' if case.get('burst') else '', ex)
 
 # ---------------------------------------------------------------- generation
 class Ctr:
@@ -579,6 +634,39 @@ def gen_loop(rng):
             case['arg'] = fill(case['arg'])
     return case
 
+def gen_loop_shared(rng):
+    """the same sub-container OBJECT at two or more positions ([row] * n, a dict whose values are one list) with companions that differ
+    from position to position: every occurrence must be mapped with ITS companion"""
+    import copy
+    ctr = Ctr(0)
+    row = rand_struct(rng, rng.choice([1, 1, 2]), ctr, p_leaf=0.0, widths=(1, 2, 2, 3))
+    k = rng.choice([2, 3, 3, 4])
+    pos = sorted(rng.sample(range(k), rng.randrange(2, k + 1)))
+    elems = [copy.deepcopy(row) if i in pos else (ctr.next() if rng.random() < 0.5 else rand_struct(rng, 1, ctr, p_leaf=0.0, widths=(1, 2))) for i in range(k)]
+    r = rng.random()
+    if r < 0.45:
+        outer = {'L': elems}; paths = [[i] for i in pos]
+    elif r < 0.7:
+        outer = {'T': elems}; paths = [[i] for i in pos]
+    else:
+        keys = rng.sample(range(10), k)
+        outer = {'D': [rng.choice([0, 0, 1, 2]), [[keys[i], elems[i]] for i in range(k)]]}; paths = [[keys[i]] for i in pos]
+    arg = outer
+    if rng.random() < 0.3:        # one level further down
+        arg = {'L': [ctr.next(), outer]}; paths = [[1] + p for p in paths]
+    named = rng.random() < 0.4
+    ncomp = rng.choice([1, 1, 2])
+    comps = []
+    for j in range(ncomp):
+        c2 = Ctr(100 * (j + 1))
+        comps.append(same_shape(rng, arg, c2, cut=rng.choice([1, 2, 99])) if rng.random() < 0.8 else c2.next())
+    if all(isinstance(c, int) for c in comps):
+        comps[0] = same_shape(rng, arg, Ctr(500), cut=2)
+    npos = rng.randrange(0, ncomp + 1)
+    kwn = list(range(npos, ncomp)) if named else rng.sample(range(6), ncomp - npos)
+    return {'kind': 'loop', 'mode': 'named' if named else 'record', 'arg': arg, 'pos': comps[:npos], 'kw': [[n, c] for n, c in zip(kwn, comps[npos:])],
+            'tag': 'shared', 'share': [paths]}
+
 STRS = ['Hello World', ' padded  ', 'MiXed case', 'a,b c', 'abcabc', '', 'x', 'the  quick brown', '1.5k', '100%', '-1,234', '2 mln', 'n/a', '7']
 def gen_lib(rng):
     fn = rng.choice(['lower', 'upper', 'strip', 'proper', 'capitalize', 'replace', 'split', 'f12', 'as_float'])
@@ -637,6 +725,17 @@ def gen_as(rng, safe):
         case['none'] = True
     return case
 
+def exceptional(rng, results, kinds, raise_kind):
+    """exception OBJECTS as results (returned, not raised) - bare or inside a container; sometimes one awaitable genuinely raises"""
+    m = len(results)
+    if m and rng.random() < 0.35:
+        for i in range(m):
+            if rng.random() < 0.5:
+                e = rng.choice([-11, -12, -13, -14])
+                results[i] = e if rng.random() < 0.7 else {rng.choice('LT'): [e, 1000 + i]}
+    if m and rng.random() < 0.1:
+        i = rng.randrange(m); results[i] = rng.choice([-11, -12, -13]); kinds[i] = raise_kind
+
 def gen_wait(rng, maxm, m=None):
     m = rng.choice([0, 1, 2, 3, 3, 4, 4, maxm]) if m is None else m
     ids = list(range(m)); rng.shuffle(ids)
@@ -644,6 +743,8 @@ def gen_wait(rng, maxm, m=None):
     def leaf():
         if ids and rng.random() < 0.6:
             return {'A': ids.pop()}
+        if rng.random() < 0.08:
+            return rng.choice([-11, -12, -13, -14])      # a plain leaf that is an exception object
         return ctr.next()
     w = rand_struct(rng, rng.choice([1, 2, 3, 4]), None, p_leaf=0.3, widths=(1, 2, 2, 3, 3), leaf=leaf, mixed=True)
     if ids:   # place the remaining awaitables at the top
@@ -651,7 +752,8 @@ def gen_wait(rng, maxm, m=None):
     rc = Ctr(100)
     results = [rc.next() if rng.random() < 0.7 else rand_struct(rng, 2, rc, p_leaf=0.4) for _ in range(m)]
     kinds = [rng.choice(['fut', 'fut', 'coro', 'task']) for _ in range(m)]
-    again = [i for i in range(m) if kinds[i] != 'coro']
+    exceptional(rng, results, kinds, 'raise')
+    again = [i for i in range(m) if kinds[i] not in ('coro', 'raise')]
     if again and rng.random() < 0.3:      # the same future / task at two places of the structure
         w = {'T': [w, {'A': rng.choice(again)}]}
     case = {'kind': 'wait', 'w': w, 'results': results, 'kinds': kinds}
@@ -664,7 +766,7 @@ def gen_wait_chain(rng):
     m = rng.choice([2, 3, 3, 4, 4, 5])
     ids = list(range(m)); rng.shuffle(ids)
     ctr = Ctr(0)
-    def A(): return {'A': ids.pop()} if ids else ctr.next()
+    def A(): return {'A': ids.pop()} if ids else (rng.choice([-11, -12, -13, -14]) if rng.random() < 0.15 else ctr.next())
     def D(vals, cls=None):
         keys, classes = rand_keys(rng, len(vals), True)
         if len(keys) < len(vals):
@@ -687,12 +789,15 @@ def gen_wait_chain(rng):
         w = D([w] + [{'A': i} for i in list(ids)]); del ids[:]
     rc = Ctr(100)
     results = [rc.next() if rng.random() < 0.7 else rand_struct(rng, 2, rc, p_leaf=0.4) for _ in range(m)]
-    return {'kind': 'wait', 'chain': True, 'shape': t, 'w': w, 'results': results, 'kinds': [rng.choice(['chain', 'chain', 'chain', 'chaintask']) for _ in range(m)]}
+    kinds = [rng.choice(['chain', 'chain', 'chain', 'chaintask']) for _ in range(m)]
+    exceptional(rng, results, kinds, 'chainraise')
+    return {'kind': 'wait', 'chain': True, 'shape': t, 'w': w, 'results': results, 'kinds': kinds}
 
 def gen_cases(rng, tier):
     q = tier == 'quick'
     cases = []
     cases += [gen_loop(rng) for _ in range(2500 if q else 30000)]
+    cases += [gen_loop_shared(rng) for _ in range(120 if q else 1500)]
     cases += [gen_lib(rng) for _ in range(700 if q else 8000)]
     cases += [gen_zip(rng) for _ in range(500 if q else 6000)]
     cases += [gen_as(rng, True) for _ in range(300 if q else 3000)]
@@ -724,7 +829,7 @@ def shrink(case):
             yield dict(case, pos=case['pos'][:i] + case['pos'][i + 1:])
         for i in range(len(case['kw'])):
             yield dict(case, kw=case['kw'][:i] + case['kw'][i + 1:])
-        for a in subs(case['arg']):
+        for a in (subs(case['arg']) if not case.get('share') else []):     # the sharing paths refer to this very shape
             yield dict(case, arg=a)
         for i, c in enumerate(case['pos']):
             if not isinstance(c, int):
